@@ -211,7 +211,7 @@ class Contract:
     def __init__(self, qualname, params=None, cases=None, requires=None, ensures=None, raises=None,
                  result=None, loops=None, canaries=None, inline=False, hints=None, notes='',
                  modular_raises=None, properties=(), native_call=None, frame=None, local_models=None,
-                 native_oracle=None, expr_contracts=None, exc_ensures=None):
+                 native_oracle=None, expr_contracts=None, exc_ensures=None, skeleton=False, modular_effect=None):
         self.qualname = qualname
         self.params = params or {}
         #: list of (label, {param: Spec}) overriding `params`; each case is explored separately
@@ -236,6 +236,10 @@ class Contract:
         self.expr_contracts = expr_contracts or {}
         #: exception name -> f(**args) -> clauses that must hold on that exceptional exit (frame / ghost conditions)
         self.exc_ensures = exc_ensures or {}
+        #: skeleton mode: pure expressions without a model evaluate to opaque values; only typestate / ghost versions are tracked
+        self.skeleton = skeleton
+        #: f(ctx, **args): ghost / typestate effect of a normal return, applied at call sites (modular use)
+        self.modular_effect = modular_effect
         #: local name -> factory of a typed model for `name = []` (an empty list literal carries no element type)
         self.local_models = local_models or {}
 
@@ -266,17 +270,28 @@ class Contract:
             c = self.call(condf, view, tys)
             if isinstance(c, (smt.Forall, smt.Exists)):
                 raise Unsupported('quantified raise condition in modular use')
+            if isinstance(c, str) and c == 'maybe':
+                # the condition depends on data the caller does not track (e.g. "at least one set"): both outcomes
+                if ctx.choose(f'{site}-raises', [False, True]):
+                    raise PyRaise(exc, f'contract of {self.qualname}')
+                continue
             if isinstance(c, bool):
                 if c:
                     raise PyRaise(exc, f'contract of {self.qualname}')
                 continue
             if ctx.branch(c):
                 raise PyRaise(exc, f'contract of {self.qualname}')
+        if self.modular_effect is not None:
+            self.modular_effect(ctx, **env)
         if self.result is None:
             return None
+        if self.skeleton:
+            return self.result(f'res@{site}', ctx, **env)
         ctx.underdetermined = True
         res = self.result.make(f'res@{site}', ctx) if isinstance(self.result, Spec) else self.result(f'res@{site}', ctx, **env)
-        if self.ensures is not None:
+        if self.ensures is not None and not self.skeleton:
+            # (typestate contracts state their postconditions over the ghost versions since *their own* entry; at a call site
+            #  their effect is applied by modular_effect instead)
             for f in _as_dict(self.call(self.ensures, view, tys, raw(res))).values():
                 # a Sequent's local hypotheses are definitional reveals used by the callee's own proof: the caller
                 # only learns the (opaque) conclusion
@@ -290,6 +305,8 @@ class Registry:
     def __init__(self):
         self.contracts = {}
         self.lemmas = {}
+        #: 'module.NAME' -> (pinned source text, model value or factory) for module-level constants that are not literals
+        self.module_constants = {}
 
     def add(self, c: Contract):
         self.contracts[c.qualname] = c
